@@ -24,12 +24,13 @@ def enc_py(n):
 
 
 def dec_py(bits):
-    """Reference decoder: returns (n, consumed) | 'eos'.  No size limits."""
+    """Reference decoder: returns (n, consumed) | ('eos', consumed) | ('huge', consumed).  No size limits
+    except that a length above 31 stops the decoding (the number would exceed 32 bits)."""
     pos = 0
     depth = 0
     while True:
         if pos >= len(bits):
-            return "eos"
+            return ("eos", len(bits))
         b = bits[pos]
         pos += 1
         if b:
@@ -39,10 +40,10 @@ def dec_py(bits):
     n = 1
     for _ in range(depth):
         ln = n
-        if ln > 4096:
-            return "huge"
+        if ln > 31:
+            return ("huge", pos)
         if pos + ln > len(bits):
-            return "eos"
+            return ("eos", len(bits))
         v = 1
         for i in range(ln):
             v = 2 * v + bits[pos + i]
@@ -52,10 +53,10 @@ def dec_py(bits):
 
 
 def expected_nat(n_cons, tymax, bound):
-    """Expected harness result for a reference decode result."""
-    if n_cons == "eos":
-        return None  # the implementation may report eos or overflow (it checks len first)
-    if n_cons == "huge":
+    """Expected harness result for a reference decode result (without the position after an error)."""
+    if n_cons[0] == "eos":
+        return [1]
+    if n_cons[0] == "huge":
         return [2]
     n, cons = n_cons
     if n >= 2**32:
@@ -267,10 +268,7 @@ def prop_check(c, r):
         stream = bits_of_bytes(pack_py(bits))
         ref = dec_py(stream)
         exp = expected_nat(ref, TYPES[m["ty"]], m["bound"])
-        if exp is None:
-            if r not in ([1], [2]):
-                return ("accept-truncated", "truncated stream %s decoded as %s" % (bstr(bits), r))
-        elif r != exp:
+        if r != exp:
             return ("decode", "read_natural on %s: got %s, expected %s" % (bstr(bits), r, exp))
         if r and r[0] == 0:
             # uniqueness: the consumed bits are the encoding of the number returned
@@ -355,12 +353,11 @@ def ops_ref(bs, ops, s=0, e=None):
         else:
             ref = dec_py(q[pos:])
             exp = expected_nat(ref, TYPES[o[1]], o[2])
-            if exp is None:
-                return None  # eos inside a natural: either error accepted, sequence stops
+            pos += ref[1]
             if exp[0] != 0:
-                return out + exp
-            pos += exp[2]
-            out += [0, exp[1], pos]
+                out += exp + [pos]
+            else:
+                out += [0, exp[1], pos]
     out.append(7)
     # close: succeeds exactly when every byte of the range has been pulled and the unread bits
     # of the current byte are zero
